@@ -15,7 +15,15 @@ import (
 )
 
 // Result of one check-sat.
+// UFValue is one point of a harness-level uninterpreted function in a model.
+type UFValue struct {
+	Name string    `json:"name"`
+	Args []float64 `json:"args"`
+	Val  float64   `json:"val"`
+}
+
 type Result struct {
+	UF     []UFValue
 	Status string            // "sat" | "unsat" | "unknown" (timeouts, errors included)
 	Model  map[string]string // var name -> raw value text (sat only)
 	Note   string            // error / reason for unknown
@@ -245,6 +253,25 @@ func OneShot(kind string, sc *Script, capMs int, wantModel bool) Result {
 			names = append(names, sn)
 		}
 		text += "(get-value (" + strings.Join(names, " ") + "))\n"
+		if len(sc.UFApps) > 0 {
+			seen := map[string]bool{}
+			var extra []string
+			add := func(n string) {
+				if n != "1.0" && !seen[n] {
+					seen[n] = true
+					extra = append(extra, n)
+				}
+			}
+			for _, a := range sc.UFApps {
+				add(a.Val[0])
+				add(a.Val[1])
+				for _, x := range a.Args {
+					add(x[0])
+					add(x[1])
+				}
+			}
+			text += "(get-value (" + strings.Join(extra, " ") + "))\n"
+		}
 	}
 	if d := os.Getenv("SYMGO_DUMP"); d != "" {
 		f, _ := os.OpenFile(d+".oneshot", os.O_APPEND|os.O_CREATE|os.O_WRONLY, 0644)
@@ -299,6 +326,45 @@ func OneShot(kind string, sc *Script, capMs int, wantModel bool) Result {
 		res.Status = "sat"
 		if i := strings.Index(s, "sat"); i >= 0 && wantModel {
 			res.Model = parseModel(s[i+3:], sc.GetNames)
+			if len(sc.UFApps) > 0 {
+				vals := map[string]float64{"1.0": 1}
+				for _, top := range parseSexps(s[i+3:]) {
+					for _, pair := range top.list {
+						if pair.list != nil && len(pair.list) == 2 {
+							if f, ok := ParseReal(pair.list[1].String()); ok {
+								vals[strings.Trim(pair.list[0].String(), "|")] = f
+							}
+						}
+					}
+				}
+				get := func(nd [2]string) (float64, bool) {
+					n, ok1 := vals[strings.Trim(nd[0], "|")]
+					d, ok2 := vals[strings.Trim(nd[1], "|")]
+					if !ok1 || !ok2 || d == 0 {
+						return 0, false
+					}
+					return n / d, true
+				}
+				for _, a := range sc.UFApps {
+					e := UFValue{Name: a.Name}
+					v, ok := get(a.Val)
+					if !ok {
+						continue
+					}
+					e.Val = v
+					good := true
+					for _, x := range a.Args {
+						xv, ok := get(x)
+						if !ok {
+							good = false
+						}
+						e.Args = append(e.Args, xv)
+					}
+					if good {
+						res.UF = append(res.UF, e)
+					}
+				}
+			}
 		}
 	default:
 		res.Note = "no verdict: " + strings.TrimSpace(firstN(s, 300))
